@@ -2446,7 +2446,18 @@ impl<'a> Model<'a> {
                     return Ok(());
                 }
                 // We try to parse as boolean
-                if let Ok(v) = value.to_lowercase().parse::<bool>() {
+                // (English true/false, or the names the active language displays)
+                let lower = value.to_lowercase();
+                let boolean = if let Ok(v) = lower.parse::<bool>() {
+                    Some(v)
+                } else if lower == self.language.booleans.r#true.to_lowercase() {
+                    Some(true)
+                } else if lower == self.language.booleans.r#false.to_lowercase() {
+                    Some(false)
+                } else {
+                    None
+                };
+                if let Some(v) = boolean {
                     let worksheet = self.workbook.worksheet_mut(sheet)?;
                     worksheet.set_cell_with_boolean(row, column, v, new_style_index)?;
                     return Ok(());
